@@ -100,18 +100,18 @@ def kernel_digest(obj):
 class Oracle:
     """one-at-a-time evaluation of the same events, each on a fresh kernel object"""
 
-    def __init__(self, CphotAng, inputs, det_alt=525.0):
+    def __init__(self, CphotAng, inputs, det_alt=525.0, cloud=None):
         beta, alt, E, lat, lon = inputs
+        cloud = cloud if cloud is not None else Cloud()
         self.keys = []
         self.raises = set()          # events whose one-at-a-time evaluation raises (or returns no result)
         for i in range(len(beta)):
             c = CphotAng(det_alt)
             try:
-                with daskkit.scheduler_ctx("synchronous"):
-                    d, a = c(beta[i:i + 1], alt[i:i + 1], E[i:i + 1], lat[i:i + 1], lon[i:i + 1], Cloud())
-                if len(np.atleast_1d(d)) != 1 or len(np.atleast_1d(a)) != 1:
-                    raise ValueError("no result for a single event")
-                self.keys.append(_key(np.atleast_1d(d)[0], np.atleast_1d(a)[0]))
+                # one at a time = the per-event function on the event's own values, each in the type its column gives it (what a
+                # batch of the pinned code hands to run()); single-event batches are executions of their own (run())
+                d, a = c.run(beta[i], alt[i], E[i], lat[i], lon[i], cloud)
+                self.keys.append(_key(d, a))
             except Exception:
                 self.raises.add(i + 1)
                 self.keys.append(b"<raises %d>" % i)
@@ -175,7 +175,7 @@ def infer_lens(n, log, hint=None):
 
 
 def execute(CphotAng, inputs, oracle, mode, fail=0, W=1, steps=None, order=None, shake=0, psize_override=None,
-            det_alt=525.0, obj=None, _probe=False):
+            det_alt=525.0, obj=None, _probe=False, cloud=None):
     """Run one batch and return its trace (list of TraceBatch events)."""
     import dask.bag as db
     beta, alt, E, lat, lon = inputs
@@ -183,7 +183,7 @@ def execute(CphotAng, inputs, oracle, mode, fail=0, W=1, steps=None, order=None,
     obj = obj if obj is not None else CphotAng(det_alt)      # obj given: a kernel object that has already evaluated batches
     before = kernel_digest(obj)
     log = daskkit.ExecLog()
-    cloud = Cloud(fail, shake)
+    cloud = cloud if cloud is not None else Cloud(fail, shake)
     orig_from_sequence = db.from_sequence
     if psize_override:
         def forced(seq, partition_size=None, npartitions=None):
@@ -230,7 +230,7 @@ def execute(CphotAng, inputs, oracle, mode, fail=0, W=1, steps=None, order=None,
         lens = infer_lens(n, log, LENS.get(lkey))
         if lens is None and lkey not in LENS and not _probe:
             # learn the segmentation from a clean execution of the same batch (the cut points do not depend on failures)
-            execute(CphotAng, inputs, oracle, "ordered", 0, 1, order=[], psize_override=psize_override, det_alt=det_alt, _probe=True)
+            execute(CphotAng, inputs, oracle, "ordered", 0, 1, order=[], psize_override=psize_override, det_alt=det_alt, _probe=True, cloud=cloud)
             lens = infer_lens(n, log, LENS.get(lkey))
         if lens is not None and raised is None and lkey not in LENS:
             LENS[lkey] = lens
@@ -377,6 +377,32 @@ def run(tier="quick", seed=0):
     shared = CphotAng(525.0)
     for mode, w, fl in (("synchronous", 1, 0), ("synchronous", 1, 57), ("threads", 4, 0), ("threads", 4, 180), ("synchronous", 1, 0)):
         traces.append(execute(CphotAng, inp, orc, mode, fl, w, obj=shared))
+    # other spellings of a batch: columns of mixed dtype (binary32 altitudes from a FITS column next to binary64 angles) and Python lists, at a
+    # detector altitude other than the reference orbit - the batch must return what the same events give one at a time IN THE SAME SPELLING
+    nm = 130
+    b0, a0, E0, la0, lo0 = make_inputs(nm, seed + 41)
+    for label, inp_m in (("f32-altitudes", (b0, a0.astype(np.float32), E0, la0, lo0)),
+                         ("f32-all-but-beta", (b0, a0.astype(np.float32), E0.astype(np.float32), la0.astype(np.float32), lo0.astype(np.float32)))):
+        orc_m = Oracle(CphotAng, inp_m, det_alt=33.0)
+        for mode, w in (("synchronous", 1), ("threads", 4)):
+            traces.append(execute(CphotAng, inp_m, orc_m, mode, 0, w, det_alt=33.0))
+    # the configured cloud model object itself as the callback (a uniform deck at 3 km), also in spawned worker processes
+    from nuspacesim.simulation.atmosphere.clouds import CloudTopHeight
+    from nuspacesim.config import Simulation
+    from nssverif.pipeline import make_config
+    ccfg = make_config({})
+    ccfg.simulation.cloud_model = Simulation.MonoCloud(altitude=3.0)
+    deck = CloudTopHeight(ccfg)
+    inp_c = make_inputs(nm, seed + 43)
+    inp_c[1][:] = np.random.default_rng(seed + 44).uniform(0.0, 4.0, nm)      # decays below and just above the deck
+    orc_c = Oracle(CphotAng, inp_c, cloud=deck)
+    for mode, w in (("synchronous", 1), ("threads", 4), ("processes", 2)):
+        traces.append(execute(CphotAng, inp_c, orc_c, mode, 0, w, cloud=deck))
+    # single-event batches (first, a middle and the last event of the mixed-dtype and the float64 inputs)
+    for src, da in ((inp, 525.0), (inp_m, 33.0)):
+        for i in (0, len(src[0]) // 2, len(src[0]) - 1):
+            one = tuple(x[i:i + 1] for x in src)
+            traces.append(execute(CphotAng, one, Oracle(CphotAng, one, det_alt=da), "synchronous", 0, 1, det_alt=da))
     # empty batch with the real kernel
     e0 = make_inputs(0, 1)
     traces.append(execute(CphotAng, e0, Oracle(CphotAng, e0), "synchronous", 0, 1))
